@@ -258,6 +258,10 @@ class Checker:
         else:
             req = {"op": "async", "case": W.to_model(case), "schedule": obs["choices"]}
         self.pending.append((req, model_view(obs, sched is not None), case, config, sched))
+        if sched is not None and case["kind"] == "mutation":
+            # today's LOOP form of execute_fields_serially (AsyncExecLoop.lean) must predict the same run as the recursive form
+            self.ctx.stat("model-loop-form-compared")
+            self.pending.append((dict(req, op="async-loop"), model_view(obs, True), case, config + "/loop-form", sched))
         if len(self.pending) >= 4000:
             self.flush()
 
@@ -1658,7 +1662,56 @@ def stages(ctx, chk):
         ("resolver-raises-execution-error", lambda: probe_resolver_raises_execution_error(ctx)),
         ("deep-nesting", lambda: probe_deep_nesting(ctx)),
         ("abort-order", lambda: abort_order_stage(ctx)),
+        ("e2-model", lambda: __import__("corr.C08_e2", fromlist=["e2_stage"]).e2_stage(ctx, "C08")),
     ]
+
+
+GENERATED_FILES = ["PyGqlModel/Generated/GatherLock.lean"]
+
+
+def extract(ctx):
+    """Which counter `gather_futures.on_finish` has (Generated/GatherLock.lean; theorem gather_shipped_variant): is `done += 1` inside
+    `with lock:` together with a local copy, and does the last-one test read that local copy?"""
+    import ast
+    from common import REPO
+    src = (REPO / "src/py_gql/execution/runtime/threadpool.py").read_text()
+    tree = ast.parse(src)
+    gather = next((n for n in ast.walk(tree) if isinstance(n, ast.FunctionDef) and n.name == "gather_futures"), None)
+    if gather is None:
+        raise ValueError("threadpool.py no longer defines gather_futures")
+    on_finish = next((n for n in ast.walk(gather) if isinstance(n, ast.FunctionDef) and n.name == "on_finish"), None)
+    if on_finish is None:
+        raise ValueError("gather_futures no longer defines on_finish")
+    incs = [n for n in ast.walk(on_finish) if isinstance(n, ast.AugAssign) and isinstance(n.target, ast.Name) and n.target.id == "done"]
+    if len(incs) != 1:
+        raise ValueError("gather_futures.on_finish: expected exactly one `done += 1`, found %d" % len(incs))
+    locked = False
+    local = None
+    for w in ast.walk(on_finish):
+        if isinstance(w, ast.With) and any(isinstance(it.context_expr, ast.Name) and it.context_expr.id == "lock" for it in w.items):
+            inside = list(ast.walk(w))
+            if incs[0] in inside:
+                locked = True
+                for a in inside:
+                    if (isinstance(a, ast.Assign) and len(a.targets) == 1 and isinstance(a.targets[0], ast.Name)
+                            and isinstance(a.value, ast.Name) and a.value.id == "done"):
+                        local = a.targets[0].id
+    tests_local = False
+    for n in ast.walk(on_finish):
+        if isinstance(n, ast.If) and isinstance(n.test, ast.Compare) and len(n.test.comparators) == 1:
+            names = {x.id for x in (n.test.left, n.test.comparators[0]) if isinstance(x, ast.Name)}
+            if "target_count" in names:
+                tests_local = local is not None and local in names
+    b = lambda x: "true" if x else "false"   # noqa: E731
+    return {"PyGqlModel/Generated/GatherLock.lean": (
+        "/- GENERATED by harness/corr/C08.py: extract() from src/py_gql/execution/runtime/threadpool.py — do not edit. -/\n"
+        "namespace PyGql.Generated.GatherLock\n\n"
+        "/-- `gather_futures.on_finish` increments the shared counter inside `with lock:` (fix 6013951) -/\n"
+        "def gatherCounterLocked : Bool := %s\n\n"
+        "/-- … and copies it to a local (`count = done`) inside the same `with lock:`; the last-one test reads the LOCAL copy\n"
+        "    (`if count == target_count`) -/\n"
+        "def testsLocalCount : Bool := %s\n\n"
+        "end PyGql.Generated.GatherLock\n" % (b(locked), b(tests_local)))}
 
 
 def run(ctx):
@@ -1678,6 +1731,11 @@ def replay(ctx, data):
     inp = data.get("input", {})
     if inp.get("probe") == "gather-lost-update":
         return probe_gather_lost_update(ctx)
+    if inp.get("stream") == "e2-model":
+        from corr import C08_e2
+        before = len(ctx.found)
+        C08_e2.e2_stage(ctx, "C08", only=inp.get("case"))
+        return len(ctx.found) == before
     if inp.get("probe") == "stage":
         before = len(ctx.found)
         try:
